@@ -252,6 +252,7 @@ Section LeafRT.
            l2 := xmul (if xeqb (le s) (XF 0) then l2 s else xdiv (l2 s) (le s)) (le s);
            lv := [] |}
     | LCount _ => {| le := le s; l1 := XF 0; l2 := XF 0; lv := [] |}
+    | LBag _ => {| le := le s; l1 := XF 0; l2 := XF 0; lv := lv s |}
     | _ => {| le := le s; l1 := l1 s; l2 := XF 0; lv := [] |}
     end.
 
